@@ -14,7 +14,7 @@ From Val Require Import Gen.ValidatorTbl Gen.CodecGuards Model.Bytes Model.Float
 Import ListNotations.
 Open Scope Z_scope.
 
-Inductive cexn := CJSONDecoding | CUnknownMessageType | CInvalidMessageDefinition | CUnicodeDecode | CValue.
+Inductive cexn := CJSONDecoding | CUnknownMessageType | CInvalidMessageDefinition | CUnicodeDecode | CValue | CKeyError.
 
 (* _to_dict: one value per leaf, read through the descriptor *)
 Fixpoint to_dict (leaves : list field) (m : list Z) : exn + list pyval :=
@@ -83,7 +83,9 @@ Fixpoint lookup (id : Z) (reg : list (Z * mclass)) : option mclass :=
 Definition field_int (f : field) (m : list Z) : Z :=
   match get f KAttr m with inr (PInt z) => z | _ => 0 end.
 
-Definition msg_from_json (hc : hclass) (reg : list (Z * mclass)) (hvals dvals : list pyval)
+(* [dvals] = None: the JSON object has no "data" member (d["data"] raises KeyError - after the version check).
+   Nothing here depends on the class having fields: a signal (no leaves, size 0) takes the same path. *)
+Definition msg_from_json (hc : hclass) (reg : list (Z * mclass)) (hvals : list pyval) (dvals : option (list pyval))
   : cexn + (list Z * list Z) :=
   match from_dict (h_leaves hc) (h_size hc) hvals with
   | inl e => inl e
@@ -92,9 +94,13 @@ Definition msg_from_json (hc : hclass) (reg : list (Z * mclass)) (hvals dvals : 
       | None => inl CUnknownMessageType
       | Some c =>
           if guard_version (field_int (h_version hc) h) (k_hash c) then inl CInvalidMessageDefinition
-          else match from_dict (k_leaves c) (k_size c) dvals with
-               | inl e => inl e
-               | inr d => inr (h, d)
+          else match dvals with
+               | None => inl CKeyError
+               | Some dv =>
+                   match from_dict (k_leaves c) (k_size c) dv with
+                   | inl e => inl e
+                   | inr d => inr (h, d)
+                   end
                end
       end
   end.
@@ -102,7 +108,7 @@ Definition msg_from_json (hc : hclass) (reg : list (Z * mclass)) (hvals dvals : 
 Definition msg_json_roundtrip (hc : hclass) (reg : list (Z * mclass)) (c : mclass) (h d : list Z)
   : cexn + (list Z * list Z) :=
   match to_dict (h_leaves hc) h, to_dict (k_leaves c) d with
-  | inr hv, inr dv => msg_from_json hc reg (map jrt hv) (map jrt dv)
+  | inr hv, inr dv => msg_from_json hc reg (map jrt hv) (Some (map jrt dv))
   | _, _ => inl CUnicodeDecode
   end.
 
